@@ -27,7 +27,8 @@ HAZ = {1: "skip-hazard1:skip-after-skip-pending-imcu-row",
        4: "skip-hazard4:stale-rows-to-go-overshoot",
        5: "crop-hazard5:merged-upsampler-reinit",
        6: "skip-hazard6:context-v4-next-imcu-row-already-decoded",
-       7: "crop-hazard7:block-smoothing-left-edge"}
+       7: "crop-hazard7:block-smoothing-left-edge",
+       8: "bufimage-hazard8:skip-to-bottom-sets-eoi-reached"}
 
 SAMPS_STD = ["11", "111111", "211111", "221111", "121111", "411111", "141111"]      # gray 444 422 420 440 411 441
 SAMPS_ODD = ["221212", "222111", "212111", "311111", "131111", "421111", "241111", "11111111", "22111122", "21111121", "22",
@@ -124,6 +125,41 @@ def gen_cases(ctx, rng, nimg, per_img, ntj):
                     cx = rng.choice([0, 0, cx])
                     cw = max(1, min(cw, ow - cx - rng.range(1, max(1, min(ow - cx - 1, 3 * align)))))
             cases.append(("L %s | %d %d %d %d %d%s | %d %d | %s" % (head, M, fancy, dct, quant, ocs, bscan, cx, cw, ops), "lib"))
+        # buffered-image mode through the libjpeg API: one crop (before / after the first jpeg_start_output), several
+        # output passes with Read/Skip ops, on multi-scan and single-scan sources
+        for j in range(2 if rng.chance(1, 2) else 0):
+            M = rng.range(1, 16) if rng.chance(1, 2) else 8
+            fancy = 1 if rng.chance(1, 2) else 0
+            dct, quant, ocs = rng.choice([0, 0, 1, 2]), 0, rng.choice([0, 0, 1, 3])
+            ow, oh = ceil_div(W * M, 8), ceil_div(H * M, 8)
+            L = M * vmax
+            align = M if len(samp) == 2 else M * hmax
+            if rng.chance(1, 5):
+                cx, cw = -1, 0
+            else:
+                cx = min(ow - 1, rng.below(max(ceil_div(ow, align), 1)) * align + rng.choice([0, 0, 1, align - 1]))
+                cw = max(1, min(rng.choice([1, 3, align, align + 1, ow - cx, rng.range(1, ow - cx)]), ow - cx))
+                if smooth_family and rng.chance(1, 2):
+                    cx = 0
+            when = rng.below(2)
+            ks = [1, 2, 3, 20] if mode == 1 else ([1, 2, 3, 20] if mode >= 3 else [1, 1, 2])
+            npass = rng.range(1, 3)
+            k, passes = 0, []
+            for q in range(npass):
+                k = max(k, rng.choice(ks))
+                ops = gen_ops(rng, oh, L, vmax, rng.chance(3, 4))
+                if q < npass - 1:
+                    # a skip that reaches the bottom sets inputctl->eoi_reached (hazard 8): later passes would see no new scans
+                    y, toks = 0, []
+                    for t in ops.split():
+                        n = int(t[1:])
+                        if t[0] == "S" and y + n >= oh:
+                            t = "R%d" % n
+                        toks.append(t)
+                        y = min(oh, y + n)
+                    ops = " ".join(toks)
+                passes.append("%d %s" % (k, ops))
+            cases.append(("B %s | %d %d %d %d %d | %d %d %d | %s" % (head, M, fancy, dct, quant, ocs, cx, cw, when, " ; ".join(passes)), "buf"))
         if samp in MCUW:
             for j in range(ntj):
                 sfi = rng.below(16)
@@ -147,7 +183,9 @@ def gen_cases(ctx, rng, nimg, per_img, ntj):
                     h = rng.choice([sh - y + 1, 0, -1, 1])
                     if rng.chance(1, 4):
                         x, y, w, h = 0, 0, 0, 0
-                cases.append(("T %s | %d %d %d %d | %d %d %d %d" % (head, sfi, fu, fd, pf, x, y, w, h), "tj"))
+                bu = 1 if rng.chance(1, 2) else 0
+                pad = rng.choice([0, 0, 1, 3, 8, 17])
+                cases.append(("T %s | %d %d %d %d %d %d | %d %d %d %d" % (head, sfi, fu, fd, pf, bu, pad, x, y, w, h), "tj"))
     return cases
 
 
@@ -184,6 +222,23 @@ def canon_model(l):
 def cols_within(px, band):
     m = re.search(r"cols=(-?\d+)-(-?\d+)", px or "")
     return bool(m) and 0 <= int(m.group(1)) and int(m.group(2)) < band
+
+
+def earlier_skip_to_bottom(rline, seg):
+    """buffered-image case: did a pass before pass `seg` skip to (or past) the bottom of the image?"""
+    if rline[:2] not in ("B ", "C ") or not seg:
+        return False
+    f = [x.strip() for x in rline[2:].split("|")]
+    H, M = int(f[0].split()[1]), int(f[1].split()[0])
+    oh = ceil_div(H * M, 8)
+    for p in f[3].split(";")[:seg]:
+        y = 0
+        for t in p.split()[1:]:
+            n = int(t[1:])
+            if t[0] == "S" and n > 0 and y + n >= oh and y < oh:
+                return True
+            y = min(oh, y + n)
+    return False
 
 
 def run_harness(exe, lines, timeout=1700):
@@ -224,6 +279,9 @@ def py_oracle_lib(line, impl_head, px):
     cx, cw = [int(x) for x in f[2].split()]
     m = re.match(r"ok dims (\d+) (\d+) M=(\d+) ", impl_head)
     rejected = impl_head.endswith(" err")
+    if m and rejected and " | ops" in impl_head:
+        bad.append(("error-during-ops", "library error in the middle of the history: " + impl_head[-80:]))
+        return bad
     if m and rejected:
         ow = int(m.group(1))
         if cx < 0:
@@ -325,12 +383,35 @@ def run(ctx):
                     l = l.strip()
                     if l and not l.startswith("#"):
                         cases.append((l, "corpus"))
-        cases += gen_cases(ctx, rng, ctx.n(800, 20000), 9, 3)
+        cases += gen_cases(ctx, rng, ctx.n(700, 20000), 9, 3)
     return run_cases(ctx, cases, exes, drv, flavours)
 
 
+def expand_passes(line):
+    """a buffered-image case (B/C line) -> one L-format line per output pass (what the model is asked)"""
+    f = [x.strip() for x in line[2:].split("|")]
+    dec = f[1].split()[:5]
+    cxw = f[2].split()
+    out = []
+    for seg in f[3].split(";"):
+        t = seg.split()
+        if not t:
+            continue
+        k = max(int(t[0]), 1)
+        out.append("L %s | %s %d | %s %s | %s" % (f[0], " ".join(dec), k, cxw[0], cxw[1], " ".join(t[1:])))
+    return out
+
+
 def run_cases(ctx, cases, exes, drv, flavours):
-    lines = [c[0] for c in cases]
+    rlines = [c[0] for c in cases]
+    # virtual cases: one per line, one per output pass for buffered-image histories
+    vreal, vseg, lines = [], [], []
+    for ri, l in enumerate(rlines):
+        if l[:2] in ("B ", "C "):
+            for si, ml in enumerate(expand_passes(l)):
+                vreal.append(ri); vseg.append(si); lines.append(ml)
+        else:
+            vreal.append(ri); vseg.append(None); lines.append(l)
     # ---- model first: it tells which cases are expected to corrupt memory (hazard 5) and must run isolated ----
     mlines = None
     if drv:
@@ -340,29 +421,48 @@ def run_cases(ctx, cases, exes, drv, flavours):
             ctx.broken_tie("model-driver", "extracted model failed: rc=%d %s" % (rc, err[-200:]))
             mlines = None
     model = [canon_model(mlines[i]) if mlines else (None, None, 0, False, 0) for i in range(len(lines))]
-    iso = [i for i in range(len(lines)) if model[i][2] == 5]
-    isoset = set(iso)
-    main_idx = [i for i in range(len(lines)) if i not in isoset]
+    isoset = set(vreal[i] for i in range(len(lines)) if model[i][2] == 5)
+    iso = sorted(isoset)
+    main_idx = [i for i in range(len(rlines)) if i not in isoset]
 
     outs = {}
     for fl in flavours:
-        res = [None] * len(lines)
-        o, crashes = run_harness(exes[fl], [lines[i] for i in main_idx])
+        rres = [None] * len(rlines)
+        o, crashes = run_harness(exes[fl], [rlines[i] for i in main_idx])
         for k, i in enumerate(main_idx):
-            res[i] = o[k]
-        crash_at = {main_idx[k]: (rc, err) for k, rc, err in crashes}
+            rres[i] = o[k]
+        rcrash = {main_idx[k]: (rc, err) for k, rc, err in crashes}
         # isolated cases: one process each (they may corrupt the heap of the decompressor)
         for i in iso[:ctx.n(12, 200)]:
-            o1, c1 = run_harness(exes[fl], [lines[i]], timeout=120)
-            res[i] = o1[0]
+            o1, c1 = run_harness(exes[fl], [rlines[i]], timeout=120)
+            rres[i] = o1[0]
             if c1:
-                crash_at[i] = (c1[0][1], c1[0][2])
+                rcrash[i] = (c1[0][1], c1[0][2])
+        res, crash_at = [None] * len(lines), {}
+        for i in range(len(lines)):
+            r = rres[vreal[i]]
+            if r is not None and vseg[i] is not None and not r.startswith("<crash"):
+                segs = r.split(" ## ")
+                r = segs[vseg[i]] if vseg[i] < len(segs) else "<pass-not-reached>"
+            res[i] = r
+            if vreal[i] in rcrash:
+                crash_at[i] = rcrash[vreal[i]]
         outs[fl] = (res, crash_at)
+    cases = [(lines[i], rlines[vreal[i]], vseg[i]) for i in range(len(lines))]
+    # a crash / hang of a multi-pass history is attributed to the history: known hazard if the model predicts, for one of
+    # its passes, a read past the last iMCU row
+    real_over = {}
+    for i in range(len(lines)):
+        if model[i][2] in HAZ and model[i][3] and vreal[i] not in real_over:
+            real_over[vreal[i]] = model[i][2]
+    crash_reported = set()
+    vreal_of = vreal
 
     ref, _ = outs[flavours[0]]
     disagree = 0
-    for i, (line, kind) in enumerate(cases):
+    for i, (line, rline, seg) in enumerate(cases):
         mhead, mprov, hz, over, band = model[i]
+        haz8 = earlier_skip_to_bottom(rline, seg)
         if band < 0:       # the frame's geometry does not satisfy the hypothesis of the context-controller theorem
             ctx.broken_tie("ctx-v2-geometry", "derive_config's geometry violates ctx_v2_ok on: " + line[:200])
             band = 0
@@ -375,17 +475,28 @@ def run_cases(ctx, cases, exes, drv, flavours):
             if i in crash_at:
                 crashed = True
                 rc, err = crash_at[i]
+                if (fl, rline) in crash_reported:
+                    continue
+                crash_reported.add((fl, rline))
+                if rline[:2] in ("B ", "C ") and hz not in HAZ and real_over.get(vreal_of[i]) in HAZ:
+                    hz_c, over_c = real_over[vreal_of[i]], True
+                else:
+                    hz_c, over_c = hz, over
                 # a crash/hang belongs to a known hazard only if the faithful model predicts the memory-unsafe
                 # step itself: a read past the last iMCU row (hazards 1..4) or the upsampler re-initialisation (5)
-                sig = HAZ[hz] if (hz == 5 or (hz in HAZ and over)) else "crash:" + ("tj" if is_tj else "lib")
+                sig = HAZ[hz_c] if (hz_c == 5 or (hz_c in HAZ and over_c)) else "crash:" + ("tj" if is_tj else "lib")
+                if rline[:2] in ("B ", "C ") and any(earlier_skip_to_bottom(rline, q) for q in range(1, 5)) and rc == -14:
+                    sig = HAZ[8]      # input marked complete by a skip to the bottom: a later output pass waits forever
                 ctx.violation("implementation %s (%s build, rc=%d)%s: %s" % (
                     "hung (killed by the harness watchdog)" if rc == -14 else "crashed",
                     fl, rc, " -- jpeg_crop_scanline re-initialises the separate upsampler while the merged one is installed" if hz == 5 else "",
                     (err.strip().split("\n") or [""])[0][:200]),
-                    {"case": line, "flavour": fl, "stderr": err[-1500:]}, signature=sig)
+                    {"case": rline, "flavour": fl, "stderr": err[-1500:]}, signature=sig)
         impl = ref[i]
         if impl is None or impl.startswith("<crash"):
             impl = next((outs[fl][0][i] for fl in flavours if outs[fl][0][i] and not outs[fl][0][i].startswith("<crash")), None)
+        if impl == "<pass-not-reached>":
+            continue
         if impl is None:
             ctx.count(stream + ("-crash" if crashed else "-notrun"), 1, ("crash", hz) if crashed else None)
             continue
@@ -410,24 +521,35 @@ def run_cases(ctx, cases, exes, drv, flavours):
         for knd, msg in pbad:
             # a failure is a KNOWN hazard only when the model predicts this very history to go wrong through one of
             # its hazard mechanisms AND the implementation's observable behaviour equals the model's prediction
-            if hz and same and knd in ("px", "scanline", "skip-return"):
+            nosm = lambda h: re.sub(r" sm=\d", "", h or "")
+            if knd == "error-during-ops" and hz in HAZ and over and (mhead or "").startswith(ihead[:-4]):
+                # the model predicts a read past the last iMCU row in this hazardous history; the multi-scan coefficient
+                # controller then fails with a virtual-array access error
+                ctx.violation(msg, {"case": rline, "pass_as_L_line": line, "impl": impl[:1500], "model_hazard": hz}, signature=HAZ[hz])
+                continue
+            if hz and knd in ("scanline", "skip-return") and ihead == mhead:
                 sig = HAZ[hz]
+            elif hz and same and knd == "px":
+                sig = HAZ[hz]
+            elif haz8 and knd == "px" and nosm(ihead) == nosm(mhead):
+                # an earlier output pass skipped to the bottom: jpeg_skip_scanlines set eoi_reached, this pass shows an older scan
+                sig = HAZ[8]
             elif band and not hz and knd == "px" and ihead == mhead and cols_within(px, band):
                 # block smoothing + crop with its left edge inside the image: the model (smooth_cols, hazard 7) predicts
                 # that exactly the first two block columns of the region are smoothed with replicated neighbours
                 sig = HAZ[7]
             else:
                 sig = knd + ":" + ("tj" if is_tj else "lib")
-            ctx.violation(msg, {"case": line, "impl": impl[:1500], "model": (mlines[i] if mlines else "")[:1500], "model_hazard": hz},
+            ctx.violation(msg, {"case": rline, "pass_as_L_line": line, "impl": impl[:1500], "model": (mlines[i] if mlines else "")[:1500], "model_hazard": hz},
                           signature=sig)
         # ---- all builds agree ----
         for fl in flavours[1:]:
             o = outs[fl][0][i]
             if o is not None and not o.startswith("<crash") and o != ref[i] and ref[i] is not None and not ref[i].startswith("<crash"):
-                ctx.violation("builds disagree (%s vs %s)" % (flavours[0], fl), {"case": line, flavours[0]: ref[i][:800], fl: o[:800]},
+                ctx.violation("builds disagree (%s vs %s)" % (flavours[0], fl), {"case": rline, flavours[0]: ref[i][:800], fl: o[:800]},
                               signature=(HAZ[5] if hz == 5 else "build-disagree:" + ("tj" if is_tj else "lib")))
         # ---- model correspondence ----
-        if same is False and hz != 5 and not (band and mhead == ihead):
+        if same is False and hz != 5 and not (band and mhead == ihead) and not haz8:
             disagree += 1
             if hz and not pbad:
                 ctx.broken_tie("model-stale:hazard%d" % hz,
